@@ -609,6 +609,12 @@ func callSSA(i *interpreter, caller *frame, callpos token.Pos, fn *ssa.Function,
 			if in := intrinsics[fn.Name()]; in != nil {
 				return in(fr, args)
 			}
+			switch fn.Name() {
+			case "vfAnd", "vfOr", "vfB2I":
+				if i.ps != nil {
+					return i.callMerged(func() value { return runSSA(i, fr, fn, args, env) })
+				}
+			}
 		}
 		if fn.Blocks == nil {
 			panic(unsupported{"no code for function: " + name})
